@@ -140,6 +140,13 @@ class Const(Expr):
     def subst(self, inst):
         return self
 
+# Priorities of the binary operators, as in the grammar in parser2
+op_priority = {
+    "*": 70, "+": 65, "-": 65,
+    "==": 50, "!=": 50, "<=": 50, "<": 50, ">=": 50, ">": 50,
+    "&": 35, "|": 30, "-->": 25, "<-->": 25,
+}
+
 class Op(Expr):
     """One of pre-specified operators."""
     def __init__(self, op, *args):
@@ -161,16 +168,33 @@ class Op(Expr):
     def __repr__(self):
         return "Op(%s,%s)" % (self.op, ",".join(repr(arg) for arg in self.args))
 
-    def __str__(self):
+    def priority(self):
+        """Priority of the top-level operator, following the grammar in parser2."""
         if len(self.args) == 1:
-            return "%s%s" % (self.op, str(self.args[0]))
+            return 80 if self.op == '-' else 40
+        return op_priority[self.op]
+
+    def __str__(self):
+        def bracket(arg, needed):
+            s = str(arg)
+            return '(' + s + ')' if isinstance(arg, Op) and needed(arg.priority()) else s
+
+        p = self.priority()
+        if len(self.args) == 1:
+            if self.op == '-':
+                return "-%s" % bracket(self.args[0], lambda q: q < p)
+            else:
+                # negation applies to an atomic condition only
+                return "~%s" % bracket(self.args[0], lambda q: q <= p)
         elif len(self.args) == 2:
-            arg1 = str(self.args[0])
-            arg2 = str(self.args[1])
-            if self.op == '*' and isinstance(self.args[0], Op) and self.args[0].op in ('+', '-'):
-                arg1 = '(' + arg1 + ')'
-            if self.op == '*' and isinstance(self.args[1], Op) and self.args[1].op in ('+', '-'):
-                arg2 = '(' + arg2 + ')'
+            if self.op in ('+', '-', '*'):
+                # arithmetic operators associate to the left
+                arg1 = bracket(self.args[0], lambda q: q < p)
+                arg2 = bracket(self.args[1], lambda q: q <= p)
+            else:
+                # boolean operators associate to the right, comparisons do not associate
+                arg1 = bracket(self.args[0], lambda q: q <= p)
+                arg2 = bracket(self.args[1], lambda q: q < p)
             return "%s %s %s" % (arg1, self.op, arg2)
         else:
             raise NotImplementedError
